@@ -964,3 +964,207 @@ def c11_replay(ctx, r):
 
 REPLAY['c11'] = c11_replay
 WINDOWS['C11'] = c11_loop
+
+
+# ==========================================================================================
+# C10: the send path of a stream and its error branches (nothing on the wire for a frame that cannot be encoded)
+def c10s_gen(ctx, intensive=False):
+    rng = ctx.rng
+    cases = []
+    fixed = [
+        'O W:1:5 W:1:0 F:1:3,0,4 W:1:2 X:1', 'O F:1:0', 'O F:1:0,0,5', 'O F:1:7,0 B:1:100:50 B:1:0:500 Z',
+        'O W:1:1 F:1:1,1,0,1 F:1:0 F:1:2 X:1 W:1:3', 'O O F:2:5,0 F:1:0,5 W:2:9 X:2 X:2 Z',
+    ]
+    k = 0
+    for method in range(4):
+        for un in (0, 1):
+            for limit in (16401, 600):
+                for f in fixed:
+                    cases.append(('se%d' % k, 'se%d S %d %d %d %s' % (k, method, un, limit, f), dict(method=method, unordered=un, limit=limit))); k += 1
+    for i in range(150 if ctx.quick() and not intensive else 2000):
+        method, un, limit = i % 4, rng.randrange(2), rng.choice([16401, 16401, 600, 1000])
+        mx = limit - 14 - 255
+        ns = rng.choice([1, 2, 3])
+        toks = ['O'] * ns
+        for _ in range(rng.randrange(2, 9)):
+            sid = rng.randrange(1, ns + 1)
+            r = rng.random()
+            if r < 0.3:
+                toks.append('W:%d:%d' % (sid, rng.choice([0, 1, 2, mx - 1, mx, mx + 1, 2 * mx + 3, rng.randrange(1, 300)])))
+            elif r < 0.75:
+                lens = [rng.choice([0, 0, 1, 5, mx, mx + 1, rng.randrange(1, 200)]) for _ in range(rng.randrange(1, 5))]
+                toks.append('F:%d:%s' % (sid, ','.join(map(str, lens))))
+            elif r < 0.87:
+                toks.append('B:%d:%d:%d' % (sid, rng.choice([0, 0, 1, 100]), rng.choice([0, 5, 13, 14, 20])))
+            elif r < 0.97:
+                toks.append('X:%d' % sid)
+            else:
+                toks.append('Z'); break
+        cases.append(('sr%d' % i, 'sr%d S %d %d %d %s' % (i, method, un, limit, ' '.join(toks)), dict(method=method, unordered=un, limit=limit)))
+    return cases
+
+
+def c10s_oracle(line, meta, io):
+    """property: every buffer on the connection is one well-formed record that decodes to one frame of
+    the stream the operation was issued on; an operation whose frame cannot be encoded writes nothing"""
+    if io.startswith('PANIC'):
+        return 'the send path panicked: ' + io[:200]
+    ops = line.split()[5:]
+    obs = io.split()
+    if len(obs) != len(ops):
+        return '%d observations for %d operations' % (len(obs), len(ops))
+    limit = meta['limit']; mx = limit - 14 - 255
+    closed = set(); seen = set(); nopen = 0; sclosed = False
+    for opi, (op, ob) in enumerate(zip(ops, obs)):
+        if ob == 'nostream':
+            continue
+        parts = ob.split(';')
+        ret, recs = parts[0], parts[1:]
+        n, err = ret.split(':')
+        p = op.split(':')
+        sid = p[1] if len(p) > 1 else None
+        frames = []
+        for r in recs:
+            wlen, hdr, d = r.split(':', 2)
+            where = 'operation %d (%s)' % (opi, op)
+            if hdr != '1' or int(wlen) <= 5 or int(wlen) - 5 > limit:
+                return '%s put a buffer of %s bytes on the connection that is not one application-data record with 0 < length <= %d%s' % (
+                    where, wlen, limit, ' (an EMPTY record 17 03 03 00 00)' if wlen == '5' else '')
+            if d == 'X':
+                return '%s put a record of %d bytes on the connection whose body is not a Cloak frame under the session key' % (where, int(wlen) - 5)
+            fsid, fseq, fcl, pl = d.split('.', 3)
+            if (fsid, fseq) in seen:
+                return '%s: stream %s sequence number %s used twice' % (where, fsid, fseq)
+            seen.add((fsid, fseq))
+            frames.append((fsid, fcl, pl))
+        want_sid = '4294967295' if p[0] == 'Z' else sid
+        for fsid, fcl, pl in frames:
+            if fsid != want_sid:
+                return 'operation %d (%s) emitted a frame of stream %s' % (opi, op, fsid)
+        data = [pl for _, fcl, pl in frames if fcl == '0']
+        ncl = len(frames) - len(data)
+        reprs = lambda tag, chunks: [_c05_repr(_c05_payload(off + l, tag)[off:]) for off, l in chunks]
+        if sclosed and p[0] != 'O':
+            if frames:
+                return 'operation %d (%s) after Session.Close put %d record(s) on the connection' % (opi, op, len(frames))
+            continue
+        if p[0] == 'O':
+            nopen += 1
+            if frames:
+                return 'OpenStream put a record on the connection'
+        elif p[0] == 'W':
+            L = int(p[2])
+            if sid in closed:
+                exp, expret = [], ('0', 'B')
+            elif L == 0:
+                exp, expret = [], ('0', '0')
+            elif meta['unordered'] and L > mx:
+                exp, expret = [], ('0', 'S')
+            else:
+                chunks = [(o, min(mx, L - o)) for o in range(0, L, mx)]
+                exp, expret = reprs(opi, chunks), (str(L), '0')
+            if data != exp or ncl:
+                return 'operation %d (%s): records on the connection carry %s, expected %s' % (opi, op, data, exp)
+            if (n, err) != expret:
+                return 'operation %d (%s) returned (%s, %s), expected %s' % (opi, op, n, err, expret)
+        elif p[0] == 'F':
+            lens = [int(x) for x in p[2].split(',')]
+            chunks, off, stop_at = [], 0, None
+            for l in lens:
+                if l == 0:
+                    if stop_at is None:
+                        stop_at = len(chunks)
+                    continue
+                while l > 0:
+                    c = min(l, mx); chunks.append((off, c)); off += c; l -= c
+            allr = reprs(opi, chunks)
+            if sid in closed:
+                ok = data == [] or data == allr[:1]        # ReadFrom notices the closed stream after its first read
+            else:
+                ok = data == allr or (stop_at is not None and data == allr[:stop_at])
+            if not ok or ncl:
+                return ('operation %d (%s): a source whose reads return %s bytes: records on the connection carry %s; expected one frame per non-empty read%s' % (
+                    opi, op, lens, data, ' up to the empty one (or all of them), and nothing for the empty read' if stop_at is not None else ''))
+        elif p[0] == 'B':
+            if frames:
+                return 'operation %d (%s): a frame that cannot be encoded (payload %s bytes, send buffer %s bytes) still put %d record(s) on the connection' % (opi, op, p[2], p[3], len(frames))
+            if err == '0':
+                return 'operation %d (%s): the encoding error was swallowed' % (opi, op)
+        elif p[0] == 'X':
+            if sid in closed:
+                if frames:
+                    return 'second Close of stream %s sent a frame' % sid
+            else:
+                if ncl != 1 or data or frames[0][1] != '1':
+                    return 'Stream.Close: expected exactly one stream-closing frame, got %s' % (frames,)
+                closed.add(sid)
+        elif p[0] == 'Z':
+            if ncl != 1 or data or frames[0][1] != '2':
+                return 'Session.Close: expected exactly one session-closing frame, got %s' % (frames,)
+            sclosed = True
+    return None
+
+
+def c10s_run(ctx, lines, tag):
+    inp = '%s/%s.in' % (ctx.work, tag); out = '%s/%s.go.out' % (ctx.work, tag)
+    open(inp, 'w').write('\n'.join(lines) + '\n')
+    if os.path.exists(out):
+        os.remove(out)
+    rc, log, dt = vlib.go_test(ctx, 'multiplex', 'TestVerifC10Send', files=['c10_send_test.go'], env=dict(VERIF_IN=inp, VERIF_OUT=out), timeout=300)
+    return rc, log, vlib.read_lines_by_id(out), dt
+
+
+def c10_send_errors(ctx, verdict, intensive=False):
+    broken = []
+    cases = c10s_gen(ctx, intensive)
+    rc, log, impl, dt = c10s_run(ctx, [c[1] for c in cases], 'send')
+    if rc != 0 or not impl:
+        broken.append(('Go driver TestVerifC10Send (send path of a stream and its error branches) failed to build or run', log[-3000:]))
+        return broken
+    fails = []
+    nrec = nzero = 0
+    for cid, line, meta in cases:
+        io = impl.get(cid)
+        if io is None:
+            continue
+        nrec += io.count(';'); nzero += len(re.findall(r'F:\d+:(?:\d+,)*0', line))
+        msg = c10s_oracle(line, meta, io)
+        if msg:
+            fails.append((len(line), cid, line, meta, io, msg))
+    seen = set()
+    for _, cid, line, meta, io, msg in sorted(fails):
+        key = re.sub(r'\d+', 'N', re.sub(r'operation \d+ \(\S+\):?', 'op', msg))[:45]
+        if key in seen or len(seen) >= 2:
+            continue
+        seen.add(key)
+        verdict.oracle_failure('send:' + key, 'C10 oracle (send path of a stream): ' + msg,
+                               dict(kind='window', driver='c10s', case=line, meta=meta, implementation=io,
+                                    schedule=['real Session (method %d, %s, MsgOnWireSizeLimit %d) over a TLSConn over a recording connection; operations in order: %s' % (
+                                        meta['method'], 'unordered' if meta['unordered'] else 'ordered', meta['limit'], ' '.join(line.split()[5:])),
+                                        'per operation: <n>:<err>;<bytes written>:<record header ok>:<stream>.<seq>.<closing>.<payload> ...', io.split(' ', 1)[1] if ' ' in io else io],
+                                    how='python3 tools/check.py C10 --replay <this file>  (VERIF_IN=<file with the case line> go test -overlay .. -run TestVerifC10Send ./internal/multiplex/)'))
+    verdict.cov['send_path_cases'] = dict(cases=len(cases), ran=len(impl), records_checked=nrec, readfrom_sources_with_empty_reads=nzero, oracle_failures=len(fails), go_seconds=round(dt, 1),
+                                          rule='Stream.Write (0, 1, max-1, max, max+1, several frames), Stream.ReadFrom over sources whose reads return 0 bytes with a nil error / more than a frame / nothing, obfuscateAndSend with an empty payload and with a send buffer that is too small, Stream.Close (also repeated), Session.Close; 4 methods, ordered and unordered, MsgOnWireSizeLimit 16401/1000/600; every buffer handed to the connection checked and decoded')
+    verdict.cov['evaluations'] = verdict.cov.get('evaluations', 0) + len(cases)
+    return broken
+
+
+def c10s_replay(ctx, r):
+    rc, log, impl, dt = c10s_run(ctx, [r['case']], 'replay')
+    io = impl.get(r['case'].split()[0]) or ''
+    print('case:          ', r['case']); print('implementation:', io)
+    msg = c10s_oracle(r['case'], r['meta'], io) if io else 'driver failed ' + log[-400:]
+    print('oracle:', msg)
+    return 1 if msg else 0
+
+
+REPLAY['c10s'] = c10s_replay
+_c10_windows_pool = c10_windows
+
+
+def c10_windows(ctx, verdict, intensive=False):
+    broken = c10_send_errors(ctx, verdict, intensive)
+    return broken + _c10_windows_pool(ctx, verdict, intensive)
+
+
+WINDOWS['C10'] = c10_windows
